@@ -90,7 +90,7 @@ def make_cases():
 
 
 def run(ck):
-    ck.prove(["AsModel.Theorems.C20", "AsModel.Theorems.C20Tokens"])
+    ck.prove(["AsModel.Theorems.C20", "AsModel.Theorems.C20Tokens", "AsModel.Theorems.C20Provenance"])
     ck.build_harness("inproc")
     res = t2.run(ck)
     t2_mm = t2.record(ck, res, ("body",), "span every template token is stamped with")
